@@ -678,7 +678,17 @@ func c08duplicates(c *chk.Ctx) {
 			return
 		}
 		if res.Exit != 0 || !res.Returned {
-			if strings.Contains(res.Output(), "Existing temp folders found") {
+			// decided on the command trace, not on the wording of the library's message: a repeated input whose first
+			// occurrence had started and not yet ended when the run stopped
+			stillRunning := false
+			tix := mon.Index(res.Trace)
+			for _, f := range []string{"dx.txt", "db.txt"} {
+				k := vproto.TaskKey("P", []vproto.KV{{K: "in", V: f}}, nil, nil)
+				if len(tix.Starts[k]) > len(tix.Ends[k]) {
+					stillRunning = true
+				}
+			}
+			if stillRunning || strings.Contains(res.Output(), "Existing temp folders found") {
 				// the repetition arrived while its first occurrence was still executing (a loaded machine): the library
 				// refuses that, and the case says nothing about order
 				c.Inconclusive("duplicate input arrived while its first occurrence was still executing")
